@@ -46,7 +46,12 @@ ASSUMPTIONS = [
     "the member sets of TlvType, FilestoreActionCode and FilestoreResponseStatusCode are tied by exhaustive sweeps of the "
     "type octet and of the action/status octet (all 256 values) through the decoders, in addition to the named constants",
     "a Python str file name is represented by its UTF-8 octets; names that are not encodable (lone surrogates) are outside the model",
-    "FileStore*Tlv cache their generic TLV on first pack(); attributes are not reassigned after pack() (no setter exists)",
+    "live-object histories (op 1060) observe ONE object: construction by every path, then up to 12 operations (plain attribute "
+    "assignment, the tlv_type setter, edits of the wrapped / cached CfdpTlv and of the filestore message LV, refused assignments, "
+    "pack / value / generate_tlv); aliasing beyond that object (the CfdpTlv handed to from_tlv stays shared with the wrapper "
+    "classes, getters hand out internal buffers) is by design and only watched from the caller's side by the adapter",
+    "FaultHandlerOverrideTlv.condition_code / handler_code are read-outs of the TLV built at construction / decoding: assigning "
+    "them does not change pack() (judged a design decision, modelled as such)",
 ]
 TRUSTED = []
 EXPLORED_ONLY = []
@@ -136,6 +141,255 @@ def _gtlv(a, i=0):
     return CfdpTlv(_enum(TlvType, a[i][0]), bytes(a[i + 1]))
 
 
+# ------------------------------------------------------------------ live-object histories (op 1060)
+class HarnessInvariant(Exception):
+    """something the adapter itself watches (caller-side objects, input buffers, shared defaults) changed;
+    marshalled as error class 99 and named by the oracle"""
+
+
+class _NotApplicable(Exception):
+    """operation the histories never apply to this class (model: refused EOther)"""
+
+
+KIND_LV, KIND_TLV = 0, 1
+KINDS = [KIND_LV, KIND_TLV] + [10 + t for t in (0, 1, 2, 4, 5, 6)]
+NVIEW = {0: 2, 1: 3, 10: 6, 11: 6, 12: 3, 14: 3, 15: 3, 16: 3}
+P_PACK, P_VALUE, P_GEN, P_SETVALUE, P_INPLACE, P_SETTYPE, P_SETPLEN, P_SETTLV, P_TLVNONE, P_SUBTYPE = range(10)
+P_CC, P_HC, P_ACTION, P_STATUS, P_FIRST, P_SECOND, P_MSG, P_SUBMSG = range(10, 18)
+APPLIES = {
+    0: {P_PACK, P_SETVALUE, P_INPLACE, P_SETPLEN},
+    1: {P_PACK, P_SETVALUE, P_SETTYPE, P_SETPLEN},
+    12: {P_PACK, P_VALUE, P_SETVALUE, P_SETTYPE, P_SETPLEN, P_SETTLV, P_SUBTYPE},
+    10: {P_PACK, P_VALUE, P_GEN, P_SETVALUE, P_SETTYPE, P_SETPLEN, P_SETTLV, P_TLVNONE, P_SUBTYPE, P_ACTION, P_FIRST, P_SECOND},
+}
+APPLIES[15] = APPLIES[16] = APPLIES[12]
+APPLIES[14] = APPLIES[12] | {P_CC, P_HC}
+APPLIES[11] = APPLIES[10] | {P_STATUS, P_MSG, P_SUBMSG}
+
+
+def _cache_view(t):
+    return [0] if t is None else [1, int(t.tlv_type)] + list(t.value)
+
+
+def _hview(kind, o):
+    """non-mutating observations only (FileStore*Tlv.value would fill the cache: it is an operation)"""
+    if kind == 0:
+        return [list(o.value), [o.value_len, o.packet_len]]
+    if kind == 1:
+        return [[int(o.tlv_type)], list(o.value), [o.value_len, o.packet_len]]
+    if kind in (12, 15, 16):
+        return [[int(o.tlv_type), int(o.tlv.tlv_type)], list(o.value), [o.packet_len]]
+    if kind == 14:
+        return [[int(o.condition_code), int(o.handler_code), int(o.tlv_type), int(o.tlv.tlv_type)], list(o.value), [o.packet_len]]
+    if kind == 10:
+        return [[int(o.action_code), 0], list(o.first_file_name.encode()), list(o.second_file_name.encode()), [],
+                [0, o.packet_len], _cache_view(o.tlv)]
+    return [[int(o.action_code), int(o.status_code)], list(o.first_file_name.encode()), list(o.second_file_name.encode()),
+            list(o.filestore_msg.value), [o.filestore_msg.value_len, o.packet_len], _cache_view(o.tlv)]
+
+
+def _scribble(buf):
+    for i in range(len(buf)):
+        buf[i] ^= 0xFF
+    buf.extend(b"\x5a\xa5")
+
+
+def _same_path(s):
+    return str(Path(s)) == s
+
+
+def _hnew(kind, path, a1, a2, a3, a4, ctx):
+    """builds the object under observation; ctx collects the caller-side objects to be re-inspected"""
+    if kind == 0:
+        if path == 0:
+            return CfdpLv(bytes(a2))
+        if path == 1:
+            ctx["buf"] = bytearray(a2); ctx["buf0"] = bytes(a2)
+            return CfdpLv(ctx["buf"])
+        if path in (2, 3):
+            s = bytes(a2).decode()
+            return CfdpLv.from_path(Path(s)) if path == 3 and s and 0 not in a2 and _same_path(s) else CfdpLv.from_str(s)
+        if path == 4:
+            return CfdpLv.unpack(bytes(a2))
+        buf = bytearray(a2); o = CfdpLv.unpack(buf); _scribble(buf)
+        return o
+    if kind == 1:
+        if path == 0:
+            return CfdpTlv(_enum(TlvType, a1[0]), bytes(a2))
+        if path == 1:
+            ctx["buf"] = bytearray(a2); ctx["buf0"] = bytes(a2)
+            return CfdpTlv(_enum(TlvType, a1[0]), ctx["buf"])
+        if path == 4:
+            return CfdpTlv.unpack(bytes(a2))
+        buf = bytearray(a2); o = CfdpTlv.unpack(buf); _scribble(buf)
+        return o
+    t = kind - 10
+    cls = CLS[t]
+    if path in (0, 1):
+        if t in (2, 5, 6):
+            if path == 0:
+                return cls(bytes(a2))
+            ctx["buf"] = bytearray(a2); ctx["buf0"] = bytes(a2)
+            return cls(ctx["buf"])
+        if t == 4:
+            if path == 0:
+                return cls(_enum(ConditionCode, a1[0]), _enum(FaultHandlerCode, a1[1]))
+            return cls(condition_code=a1[0], handler_code=a1[1])            # plain integers
+        first, second = bytes(a2).decode(), bytes(a3).decode()
+        if t == 0:
+            if path == 1 and not second:
+                return cls(_enum(FilestoreActionCode, a1[0]), first)
+            return cls(_enum(FilestoreActionCode, a1[0]), first, second)
+        if path == 1:
+            kw = {}
+            if second:
+                kw["second_file_name"] = second
+            if a4:
+                ctx["lv"] = CfdpLv(bytearray(a4)); ctx["lv0"] = (bytes(a4), len(a4))
+                kw["filestore_msg"] = ctx["lv"]
+            return cls(_enum(FilestoreActionCode, a1[0]), _enum(FilestoreResponseStatusCode, a1[1]), first, **kw)
+        ctx["lv"] = CfdpLv(bytes(a4)); ctx["lv0"] = (bytes(a4), len(a4))
+        return cls(_enum(FilestoreActionCode, a1[0]), _enum(FilestoreResponseStatusCode, a1[1]), first, second, ctx["lv"])
+    if path == 4:
+        return cls.unpack(bytes(a2))
+    if path == 5:
+        buf = bytearray(a2); o = cls.unpack(buf); _scribble(buf)
+        return o
+    g = CfdpTlv(_enum(TlvType, a1[0]), bytes(a2))
+    ctx["g"] = g; ctx["g0"] = (g.tlv_type, bytes(g.value), g.value_len)
+    conv = {0: "to_fs_request", 1: "to_fs_response", 2: "to_msg_to_user", 4: "to_fault_handler_override", 5: "to_flow_label",
+            6: "to_entity_id"}[t]
+    if path == 6:
+        return cls.from_tlv(g)
+    if path == 7:
+        return getattr(TlvHolder(g), conv)()
+    if path == 8:
+        c = cls.from_tlv(g)
+        h = TlvHolder(c)
+        o = getattr(h, conv)()
+        if o is not c or getattr(h, conv)() is not c:
+            raise HarnessInvariant("TlvHolder(concrete).%s() does not hand out the held object" % conv)
+        return o
+    h = TlvHolder(g)
+    first = getattr(h, conv)()
+    ctx["first"] = first; ctx["first0"] = _hview(kind, first)
+    return getattr(h, conv)()
+
+
+def _hstep(kind, o, op, ctx):
+    """one operation; returns the octets the call produced (or []), raises what the call raises"""
+    c = op[0]
+    if c not in APPLIES[kind]:
+        raise _NotApplicable()
+    if c == P_PACK:
+        p = o.pack()
+        if not isinstance(p, (bytes, bytearray)):
+            raise HarnessInvariant("pack() returned a %s" % type(p).__name__)
+        return list(p)
+    if c == P_VALUE:
+        return list(o.value)
+    if c == P_GEN:
+        o.generate_tlv(); return []
+    if c == P_SETVALUE:
+        o.value = bytes(op[1:]); return []
+    if c == P_INPLACE:
+        n = op[1]
+        b = bytearray(op[2:2 + n]); o.value = b; b.extend(bytes(op[2 + n:])); o.value = b
+        return []
+    if c == P_SETTYPE:
+        o.tlv_type = _enum(TlvType, op[1]); return []
+    if c == P_SETPLEN:
+        o.packet_len = op[1]; return []
+    if c == P_SETTLV:
+        o.tlv = CfdpTlv(_enum(TlvType, op[1]), bytes(op[2:])); return []
+    if c == P_TLVNONE:
+        o.tlv = None; return []
+    if c == P_SUBTYPE:
+        o.tlv.tlv_type = _enum(TlvType, op[1]); return []
+    if c == P_CC:
+        o.condition_code = _enum(ConditionCode, op[1]); return []
+    if c == P_HC:
+        o.handler_code = _enum(FaultHandlerCode, op[1]); return []
+    if c == P_ACTION:
+        o.action_code = _enum(FilestoreActionCode, op[1]); return []
+    if c == P_STATUS:
+        o.status_code = _enum(FilestoreResponseStatusCode, op[1]); return []
+    if c == P_FIRST:
+        o.first_file_name = bytes(op[1:]).decode(); return []
+    if c == P_SECOND:
+        o.second_file_name = bytes(op[1:]).decode(); return []
+    if c == P_MSG:
+        o.filestore_msg = CfdpLv(bytes(op[1:])); return []
+    if c == P_SUBMSG:
+        ctx["lv_edited"] = True
+        o.filestore_msg.value = bytes(op[1:]); return []
+    raise _NotApplicable()
+
+
+def _hstatus(f):
+    try:
+        return [0] + list(f())
+    except _NotApplicable:
+        return [1, 99]
+    except HarnessInvariant:
+        raise
+    except Exception as e:
+        return [1, canon_code(classify_exception(e))]
+
+
+def _check_default_msg(repair=False):
+    """FileStoreResponseTlv built without filestore_msg must start with an empty message whatever happened to other
+    objects before (a default shared between objects is repaired at the start of a case so that only the case that
+    edits it is reported)"""
+    d = FileStoreResponseTlv(FilestoreActionCode.CREATE_FILE_SNM, FilestoreResponseStatusCode.CREATE_SUCCESS, "")
+    if bytes(d.filestore_msg.value) != b"" or d.filestore_msg.value_len != 0 or d.tlv is not None:
+        seen = bytes(d.filestore_msg.value)
+        d.filestore_msg.value = bytes()
+        if "value_len" in vars(d.filestore_msg):
+            d.filestore_msg.value_len = 0
+        if not repair:
+            raise HarnessInvariant("shared default: a FileStoreResponseTlv built without filestore_msg starts with message %r"
+                                   % (seen,))
+
+
+def _check_callers(kind, ctx):
+    """caller-side objects: argument buffers, the CfdpLv / CfdpTlv handed in, the first of two conversions"""
+    if "buf" in ctx and kind != 0 and bytes(ctx["buf"]) != ctx["buf0"]:
+        raise HarnessInvariant("the caller's bytearray argument was modified")
+    if "lv" in ctx and not ctx.get("lv_edited") and (bytes(ctx["lv"].value), ctx["lv"].value_len) != ctx["lv0"]:
+        raise HarnessInvariant("the caller's CfdpLv (filestore_msg argument) was modified")
+    if "g" in ctx and kind in (10, 11):
+        g = ctx["g"]
+        if (g.tlv_type, bytes(g.value), g.value_len) != ctx["g0"]:
+            raise HarnessInvariant("the caller's CfdpTlv (from_tlv / TlvHolder argument) was modified")
+    if "first" in ctx and kind in (10, 11) and _hview(kind, ctx["first"]) != ctx["first0"]:
+        raise HarnessInvariant("the object returned by the first TlvHolder conversion changed when the second one was edited")
+
+
+def _history(a):
+    kind, path = a[0]
+    _check_default_msg(repair=True)
+    ctx = {}
+    o = _hnew(kind, path, a[1], a[2], a[3], a[4], ctx)
+    _check_callers(kind, ctx)
+    out = _hview(kind, o)
+    for op in a[5:]:
+        st = _hstatus(lambda: _hstep(kind, o, op, ctx))
+        out.append(st)
+        out += _hview(kind, o)
+        if op[0] in (P_PACK, P_VALUE, P_GEN):
+            _check_callers(kind, ctx)
+    _check_callers(kind, ctx)
+    _check_default_msg()
+    # the same construction once more must give an object that reads like the first one did at its birth, whatever was
+    # done to the first one since (shared singletons, memoised constructors / decoders)
+    again = _hview(kind, _hnew(kind, path, a[1], a[2], a[3], a[4], {}))
+    if again != out[:NVIEW[kind]]:
+        raise HarnessInvariant("building the same object again after the history gives %s, the first one started as %s: "
+                               "state is shared between objects" % (again[:4], out[:NVIEW[kind]][:4]))
+    return out
+
+
 def _holder(a):
     mode = a[0][0]
     if mode == 0:
@@ -146,11 +400,35 @@ def _holder(a):
     return TlvHolder(CLS[int(t.tlv_type)].from_tlv(t))
 
 
+def _both(dec, view, data):
+    """a decoder fed bytes, and fed a bytearray that is overwritten right after the call: the decoded object must
+    show the same fields (nothing may keep a reference into the caller's buffer)"""
+    def run(mk, after):
+        buf = mk(data)
+        try:
+            o = dec(buf)
+        except Exception as e:
+            return None, e
+        after(buf)
+        return view(o), None
+    r1, e1 = run(bytes, lambda b: None)
+    r2, e2 = run(bytearray, _scribble)
+    if (e1 is None) != (e2 is None) or (e1 is not None and classify_exception(e1) != classify_exception(e2)):
+        raise HarnessInvariant("bytes input gives %r, the same octets as bytearray give %r" % (e1 or "an object", e2 or "an object"))
+    if e1 is not None:
+        raise e1
+    if r1 != r2:
+        raise HarnessInvariant("decoding a bytearray that is overwritten afterwards gives %s, decoding bytes gives %s" % (r2[:4], r1[:4]))
+    return r1
+
+
 def impl(op, a):
+    if op == 1060:
+        return _history(a)
     if op == 1000:
         v = CfdpLv(bytes(a[0])); return [list(v.pack()), [v.packet_len], list(v.value)]
     if op == 1001:
-        v = CfdpLv.unpack(bytes(a[0])); return [list(v.value), [v.packet_len], list(v.pack())]
+        return _both(CfdpLv.unpack, lambda v: [list(v.value), [v.packet_len], list(v.pack())], a[0])
     if op == 1002:
         return [[int(CfdpLv(bytes(a[0])) == CfdpLv(bytes(a[1])))]]
     if op == 1007:
@@ -161,7 +439,7 @@ def impl(op, a):
     if op == 1003:
         return _tlv_view(_gtlv(a))
     if op == 1004:
-        return _tlv_view(CfdpTlv.unpack(bytes(a[0])))
+        return _both(CfdpTlv.unpack, _tlv_view, a[0])
     if op == 1005:
         return [[int(_gtlv(a, 0) == _gtlv(a, 2))]]
     if op == 1006:
@@ -169,7 +447,7 @@ def impl(op, a):
     if op == 1010:
         return _wrap_view(EntityIdTlv(bytes(a[0])))
     if op == 1011:
-        return _wrap_view(EntityIdTlv.unpack(bytes(a[0])))
+        return _both(EntityIdTlv.unpack, _wrap_view, a[0])
     if op == 1012:
         return _wrap_view(EntityIdTlv.from_tlv(_gtlv(a)))
     if op == 1013:
@@ -177,32 +455,32 @@ def impl(op, a):
     if op == 1014:
         return _wrap_view(FlowLabelTlv(bytes(a[0])))
     if op == 1015:
-        return _wrap_view(FlowLabelTlv.unpack(bytes(a[0])))
+        return _both(FlowLabelTlv.unpack, _wrap_view, a[0])
     if op == 1016:
         return _wrap_view(FlowLabelTlv.from_tlv(_gtlv(a)))
     if op == 1017:
         return _fault_view(FaultHandlerOverrideTlv(_enum(ConditionCode, a[0][0]), _enum(FaultHandlerCode, a[0][1])))
     if op == 1018:
-        return _fault_view(FaultHandlerOverrideTlv.unpack(bytes(a[0])))
+        return _both(FaultHandlerOverrideTlv.unpack, _fault_view, a[0])
     if op == 1019:
         return _fault_view(FaultHandlerOverrideTlv.from_tlv(_gtlv(a)))
     if op == 1020:
         return _wrap_view(MessageToUserTlv(bytes(a[0])))
     if op == 1021:
-        return _wrap_view(MessageToUserTlv.unpack(bytes(a[0])))
+        return _both(MessageToUserTlv.unpack, _wrap_view, a[0])
     if op == 1022:
         return _wrap_view(MessageToUserTlv.from_tlv(_gtlv(a)))
     if op == 1023:
         return _fsreq_view(FileStoreRequestTlv(_enum(FilestoreActionCode, a[0][0]), bytes(a[1]).decode(), bytes(a[2]).decode()))
     if op == 1024:
-        return _fsreq_view(FileStoreRequestTlv.unpack(bytes(a[0])))
+        return _both(FileStoreRequestTlv.unpack, _fsreq_view, a[0])
     if op == 1025:
         return _fsreq_view(FileStoreRequestTlv.from_tlv(_gtlv(a)))
     if op == 1026:
         return _fsresp_view(FileStoreResponseTlv(_enum(FilestoreActionCode, a[0][0]), _enum(FilestoreResponseStatusCode, a[0][1]),
                                                  bytes(a[1]).decode(), bytes(a[2]).decode(), CfdpLv(bytes(a[3]))))
     if op == 1027:
-        return _fsresp_view(FileStoreResponseTlv.unpack(bytes(a[0])))
+        return _both(FileStoreResponseTlv.unpack, _fsresp_view, a[0])
     if op == 1028:
         return _fsresp_view(FileStoreResponseTlv.from_tlv(_gtlv(a)))
     if 1030 <= op <= 1035:
@@ -323,6 +601,177 @@ def valid_units(rng, n=1):
         out.append((1, tlv_bytes(1, fs_value(a, rstatus(rng, a) & 15, rname(rng, rng.randrange(0, 9)),
                                              rname(rng, rng.randrange(0, 9)), rbytes(rng, rng.randrange(0, 6))))))
     return out
+
+
+# ------------------------------------------------------------------ history generators (op 1060)
+TAILS = [[0xc2, 0x80], [0xdf, 0xbf], [0xe2, 0x82, 0xac], [0xef, 0xbf, 0xbf], [0xf0, 0x90, 0x80, 0x80], [0xf4, 0x8f, 0xbf, 0xbf]]
+HLENS = [0, 0, 1, 1, 2, 3, 5, 8, 31, 63, 64, 120, 126, 127, 128, 200, 249, 250, 251, 252, 253, 254, 255]
+PATHS = {0: [0, 1, 2, 3, 4, 5], 1: [0, 1, 4, 5]}
+for _k in (10, 11, 12, 14, 15, 16):
+    PATHS[_k] = [0, 1, 4, 5, 6, 7, 8, 9]
+CCS = [0, 1, 2, 3, 4, 5, 6, 7, 8, 10, 11, 14, 15]
+HCS = [1, 2, 3, 4]
+
+
+def rname_tail(rng, n):
+    """valid UTF-8 of exactly n octets whose LAST character is a multi-octet one when there is room"""
+    tails = [t for t in TAILS if len(t) <= n]
+    if not tails or rng.random() < 0.3:
+        return rname(rng, n)
+    t = rng.choice(tails)
+    return rname(rng, n - len(t)) + t
+
+
+def rbytes_special(rng, n):
+    """octet strings with special patterns: all 0x80 / 0xFF / 0x00, or random"""
+    k = rng.randrange(5)
+    return [0x80] * n if k == 0 else [0xFF] * n if k == 1 else [0] * n if k == 2 else rbytes(rng, n)
+
+
+def fs_args(rng, resp, tight=None):
+    """constructor arguments of a filestore request / response; tight = wanted total value length (or None)"""
+    a = rng.choice(ACTIONS)
+    two = a in TWO
+    if tight is None:
+        l1 = rng.choice(HLENS[:14]); l2 = rng.choice(HLENS[:12]); lm = rng.choice([0, 0, 1, 2, 9, 40])
+    else:
+        room = tight - 2 - (1 if two else 0) - (1 if resp else 0)      # octets left for the names and the message
+        l1 = rng.choice([0, 1, room // 2, room - 1, room]) if room > 0 else 0
+        l1 = max(0, min(l1, 255, room))
+        l2 = max(0, min(rng.choice([0, 1, room - l1]), 255, room - l1)) if two else rng.choice([0, 3])
+        lm = max(0, min(room - l1 - (l2 if two else 0), 255)) if resp else 0
+    st = (rstatus(rng, a) if rng.random() < 0.85 else rng.choice([x for x in STATUS if x >= 0])) if resp else 0
+    return [a, st], rname_tail(rng, l1), rname_tail(rng, l2), (rbytes_special(rng, lm) if resp else [])
+
+
+def hist_new_args(rng, kind, path):
+    """(a1, a2, a3, a4) for hnew"""
+    if kind == 0:
+        n = rng.choice(HLENS + [256, 300])
+        if path in (2, 3):
+            return [], rname_tail(rng, n), [], []
+        if path in (4, 5):
+            v = rbytes_special(rng, min(n, 255))
+            return [], lv_bytes(v) + rbytes(rng, rng.choice([0, 0, 1, 7, 300, 600])), [], []
+        return [], rbytes_special(rng, n), [], []
+    if kind == 1:
+        n = rng.choice(HLENS + [256, 300])
+        if path in (4, 5):
+            v = rbytes_special(rng, min(n, 255))
+            return [], tlv_bytes(rng.choice(TLV_TYPES), v) + rbytes(rng, rng.choice([0, 0, 1, 7, 300, 600])), [], []
+        return [rng.choice(TLV_TYPES * 3 + [3, 7, 255, 256, -1])], rbytes_special(rng, n), [], []
+    t = kind - 10
+    if t in (2, 5, 6):
+        n = rng.choice([1, 2, 4, 8] * 3 + HLENS) if t == 6 else rng.choice(HLENS)
+        v = rbytes_special(rng, n)
+        if path in (0, 1):
+            return [], (v if rng.random() < 0.9 else rbytes(rng, rng.choice([256, 300]))), [], []
+        if path in (4, 5):
+            return [], tlv_bytes(t, v) + rbytes(rng, rng.choice([0, 0, 2, 300, 600])), [], []
+        return [t if rng.random() < 0.9 else rng.choice(TLV_TYPES)], v, [], []
+    if t == 4:
+        cc, hc = rng.choice(CCS), rng.choice(HCS)
+        if path in (0, 1):
+            return [cc, hc], [], [], []
+        v = [cc * 16 + hc] + (rbytes(rng, rng.choice([0, 0, 0, 1, 3])))
+        if path in (4, 5):
+            return [], tlv_bytes(4, v) + rbytes(rng, rng.choice([0, 0, 2, 600])), [], []
+        return [4 if rng.random() < 0.9 else rng.choice(TLV_TYPES)], v, [], []
+    resp = t == 1
+    a1, n1, n2, m = fs_args(rng, resp, rng.choice([None, None, None, 253, 254, 255, 256]))
+    if path in (0, 1):
+        return a1, n1, n2, m
+    val = fs_value(a1[0], (a1[1] & 15) if resp else rng.choice([0, 0, 5]), n1, n2, m if resp else None)
+    if len(val) > 255:
+        a1, n1, n2, m = fs_args(rng, resp)
+        val = fs_value(a1[0], (a1[1] & 15) if resp else 0, n1, n2, m if resp else None)
+    if path in (4, 5):
+        return [], tlv_bytes(t, val) + rbytes(rng, rng.choice([0, 0, 2, 300, 600])), [], []
+    return [t if rng.random() < 0.92 else rng.choice(TLV_TYPES)], val, [], []
+
+
+def hist_op(rng, kind, c, st):
+    """one operation with code c; st carries what the generator remembers (current action code)"""
+    t = kind - 10
+    if c in (P_PACK, P_VALUE, P_GEN, P_TLVNONE):
+        return [c]
+    if c == P_SETVALUE:
+        return [c] + rbytes_special(rng, rng.choice([0, 1, 2, 5, 64, 254, 255, 256, 300] if kind == 0 else [0, 1, 3]))
+    if c == P_INPLACE:
+        v = rbytes(rng, rng.choice([0, 1, 3, 250, 255])); x = rbytes(rng, rng.choice([0, 1, 2, 6]))
+        return [c, len(v)] + v + x
+    if c in (P_SETTYPE, P_SUBTYPE):
+        own = t if kind >= 10 else rng.choice(TLV_TYPES)
+        return [c, rng.choice([own] * 4 + TLV_TYPES + [3, 7, 0x80, 255, 256, -1])]
+    if c == P_SETPLEN:
+        return [c, rng.choice([0, 1, 2, 255, 256, 70000])]
+    if c == P_SETTLV:
+        own = t if rng.random() < 0.7 else rng.choice(TLV_TYPES + [3, 255, 256])
+        if t == 4 and rng.random() < 0.6:
+            return [c, own, rng.choice(CCS) * 16 + rng.choice(HCS)]
+        if t in (0, 1) and rng.random() < 0.6:
+            a1, n1, n2, m = fs_args(rng, t == 1)
+            return [c, own] + fs_value(a1[0], a1[1] & 15, n1[:20], n2[:20] if utf8_ok(n2[:20]) else [], m if t == 1 else None)[:255]
+        return [c, own] + rbytes_special(rng, rng.choice([0, 1, 1, 2, 4, 8, 255, 256]))
+    if c == P_CC:
+        return [c, rng.choice(CCS)]
+    if c == P_HC:
+        return [c, rng.choice(HCS)]
+    if c == P_ACTION:
+        st["action"] = rng.choice(ACTIONS)
+        return [c, st["action"]]
+    if c == P_STATUS:
+        a = st.get("action")
+        if a is not None and rng.random() < 0.8:
+            return [c, rstatus(rng, a)]
+        return [c, rng.choice([x for x in STATUS if x >= 0])]
+    if c in (P_FIRST, P_SECOND):
+        return [c] + rname_tail(rng, rng.choice(HLENS[:16] + [250, 253, 255, 256, 300]))
+    if c == P_MSG:
+        return [c] + rbytes_special(rng, rng.choice([0, 1, 2, 50, 200, 255, 256]))
+    if c == P_SUBMSG:
+        return [c] + rbytes_special(rng, rng.choice([0, 1, 3, 60, 255, 256, 300]))
+    raise RuntimeError("no generator for op code %d" % c)
+
+
+def hist_random(rng, kind, path):
+    a1, a2, a3, a4 = hist_new_args(rng, kind, path)
+    st = {"action": a1[0] if kind in (10, 11) and path in (0, 1) else None}
+    codes = sorted(APPLIES[kind])
+    weights = [6 if c == P_PACK else 3 if c in (P_VALUE, P_GEN) else 1 if c in (P_SETPLEN, P_TLVNONE) else 2 for c in codes]
+    ops = []
+    for _ in range(rng.randrange(0, 11)):
+        if ops and rng.random() < 0.15:
+            ops.append(list(ops[-1]))          # the same call again (same value assigned twice, pack twice)
+        else:
+            ops.append(hist_op(rng, kind, rng.choices(codes, weights)[0], st))
+    if rng.random() < 0.7:
+        ops += [[P_PACK], [P_PACK]]
+    return (1060, [[kind, path], a1, a2, a3, a4] + ops[:12])
+
+
+def hist_systematic(rng, kinds=KINDS):
+    """every construction path x every applicable operation, before / after / between pack() and value"""
+    out = []
+    for kind in kinds:
+        for path in PATHS[kind]:
+            for c in sorted(APPLIES[kind]):
+                if c in (P_PACK,):
+                    continue
+                for _ in range(2):
+                    a1, a2, a3, a4 = hist_new_args(rng, kind, path)
+                    st = {"action": a1[0] if kind in (10, 11) and path in (0, 1) else None}
+                    o = hist_op(rng, kind, c, st)
+                    o2 = hist_op(rng, kind, c, st)
+                    shapes = [[o, [P_PACK], [P_PACK]], [[P_PACK], o, [P_PACK]], [o, list(o), [P_PACK]], [o, o2, [P_PACK], o, [P_PACK]]]
+                    if P_VALUE in APPLIES[kind]:
+                        shapes.append([[P_VALUE], o, [P_VALUE], [P_PACK]])
+                    if P_GEN in APPLIES[kind]:
+                        shapes.append([[P_GEN], o, [P_PACK], [P_GEN], [P_VALUE]])
+                    out.append((1060, [[kind, path], a1, a2, a3, a4] + rng.choice(shapes)))
+                    out.append((1060, [[kind, path], a1, a2, a3, a4] + rng.choice(shapes)))
+    return out
+
 
 
 def all_decode_ops(data):
@@ -457,6 +906,77 @@ def streams(tier, rng):
             cases.append((1026, [[a, st], n1, n2, m]))
             cases.append((1027, [tlv_bytes(1, fs_value(a, st & 15, n1, n2, m))]))
     yield "structured_valid", "exact", cases
+    # 5b. size sweeps: every length 0..1100 (+ 4 KiB / 64 KiB) of every length-carrying field; decoder buffers of every
+    #     length around the multiples of 256 (the item in front, arbitrary octets behind)
+    sweep = list(range(0, 1101)) + [4095, 4096, 4097, 65535, 65536, 65537]
+    cases = []
+    for n in sweep:
+        v = rbytes_special(rng, n)
+        cases.append((1000, [v])); cases.append((1003, [[rng.choice(TLV_TYPES)], v]))
+        cases.append((NEW_OP[rng.choice([2, 5, 6])], [v]))
+        if n <= 1100:
+            cases.append((1007, [rname_tail(rng, n)]))
+        if n <= 255:
+            t = rng.choice([2, 5, 6])
+            cases.append((UNPACK_OP[t], [tlv_bytes(t, v)])); cases.append((FROM_OP[t], [[t], v]))
+            cases.append((HOLDER_OP[t], [[1], [t], v]))
+    near = sorted({m + d for m in (0, 256, 512, 768, 1024) for d in range(-8, 9) if m + d >= 0} | {1100, 4096, 65536, 65537})
+    for n in near:
+        for l in {0, 1, 255, min(255, max(0, n - 2)), min(255, max(0, n - 1)), rng.randrange(256)}:
+            v = rbytes_special(rng, l)
+            t = rng.choice(TLV_TYPES)
+            d = (tlv_bytes(t, v) + rbytes(rng, max(0, n - l - 2)))[:n]
+            cases.append((1004, [d])); cases.append((UNPACK_OP[t], [d]))
+            d = (lv_bytes(v) + rbytes(rng, max(0, n - l - 1)))[:n]
+            cases.append((1001, [d]))
+        a = rng.choice(ACTIONS)
+        d = tlv_bytes(1, fs_value(a, rstatus(rng, a) & 15, rname_tail(rng, 7), rname_tail(rng, 5), rbytes(rng, 3)))
+        cases.append((1027, [(d + rbytes(rng, max(0, n - len(d))))])); cases.append((1024, [[0] + d[1:] + rbytes(rng, max(0, n - len(d)))]))
+    yield "size_sweep_values_and_buffers", "exact", cases
+    # 5c. size sweeps of the file names / filestore message (every length 0..300), names ending in multi-octet UTF-8
+    cases = []
+    for l in range(0, 301):
+        a1 = rng.choice([0, 1, 5, 6, 7, 8]); a2 = rng.choice(TWO)
+        for (a, n1, n2) in ((a1, rname_tail(rng, l), []), (a2, rname_tail(rng, l), rname_tail(rng, rng.choice([0, 1, 2]))),
+                            (a2, rname_tail(rng, rng.choice([0, 1, 2])), rname_tail(rng, l)),
+                            (a2, rname_tail(rng, l), rname_tail(rng, max(0, 252 - l + rng.choice([-1, 0, 1]))))):
+            cases.append((1023, [[a], n1, n2]))
+            st = rstatus(rng, a)
+            m = rbytes_special(rng, rng.choice([0, 1, 2]))
+            cases.append((1026, [[a, st], n1, n2, m]))
+            val = fs_value(a, 0, n1, n2)
+            if len(val) <= 255 and len(n1) <= 255 and len(n2) <= 255:
+                cases.append((1024, [tlv_bytes(0, val)])); cases.append((1025, [[0], val]))
+            val = fs_value(a, st & 15, n1, n2, m)
+            if len(val) <= 255 and len(n1) <= 255 and len(n2) <= 255:
+                cases.append((1027, [tlv_bytes(1, val) + rbytes(rng, 2)])); cases.append((1031, [[1], [1], val]))
+        a = rng.choice(ACTIONS); st = rstatus(rng, a)
+        n1, n2 = rname_tail(rng, rng.choice([0, 1, 4])), rname_tail(rng, rng.choice([0, 1, 4]))
+        m = rbytes_special(rng, l)
+        cases.append((1026, [[a, st], n1, n2, m]))
+        val = fs_value(a, st & 15, n1, n2, m)
+        if len(val) <= 255 and l <= 255:
+            cases.append((1027, [tlv_bytes(1, val)])); cases.append((1028, [[1], val]))
+    yield "size_sweep_names_and_message", "exact", cases
+    # 5d. coinciding limits: total value length exactly at / around 255 AND a field of length 0 / 255 AND a name ending
+    #     in a 4-octet character, through constructor, decoder and a short history
+    cases = []
+    for resp in (False, True):
+        for a in ACTIONS:
+            for tight in (252, 253, 254, 255, 256, 257):
+                for _ in range(4 if big else 2):
+                    a1, n1, n2, m = fs_args(rng, resp, tight)
+                    a1 = [a, rstatus(rng, a) if resp else 0]
+                    if a not in TWO and rng.random() < 0.5:
+                        n2 = []
+                    cases.append((1026 if resp else 1023, ([a1, n1, n2, m] if resp else [[a], n1, n2])))
+                    val = fs_value(a, a1[1] & 15, n1, n2, m if resp else None)
+                    if len(val) <= 255 and max(len(n1), len(n2)) <= 255:
+                        d = tlv_bytes(1 if resp else 0, val)
+                        cases.append(((1027 if resp else 1024), [d])); cases.append(((1028 if resp else 1025), [[d[0]], val]))
+                        cases.append((1060, [[11 if resp else 10, rng.choice([4, 5])], [], d, [], [], [P_PACK], [P_VALUE], [P_PACK]]))
+                    cases.append((1060, [[11 if resp else 10, rng.choice([0, 1])], a1, n1, n2, m, [P_PACK], [P_PACK], [P_VALUE]]))
+    yield "coinciding_limits", "exact", cases
     # 6. targeted malformed: every truncation, substitutions in type/length/first value octets, inner LV lengths,
     #    invalid UTF-8 in names
     cases = []
@@ -492,6 +1012,18 @@ def streams(tier, rng):
         cases.append((UNPACK_OP[t], [[t, 0]])); cases.append((FROM_OP[t], [[t], []])); cases.append((UNPACK_OP[t], [[]]))
         cases.append((UNPACK_OP[t], [[t]]))
     yield "targeted_malformed", "exact", cases
+    # 6b. live-object histories: every construction path, every public attribute / setter / sub-object edit, refused
+    #     assignments, pack / value / generate_tlv in any order (up to 12 operations), observed after every step
+    cases = hist_systematic(rng) + hist_systematic(rng)
+    if big:
+        cases += hist_systematic(rng) + hist_systematic(rng) + hist_systematic(rng) + hist_systematic(rng)
+    yield "histories_systematic", "exact", cases
+    cases = []
+    for kind in KINDS:
+        for path in PATHS[kind]:
+            for _ in range(400 if big else 90):
+                cases.append(hist_random(rng, kind, path))
+    yield "histories_random", "exact", cases
     # 7. garbage
     cases = []
     for _ in range(6000 if big else 1200):
@@ -576,11 +1108,153 @@ def _expect_fields(op, t, v):
     return [[action, st], first, second, m, [len(val) + 2], [0] + tlv_bytes(1, val), [0] + val]
 
 
+# ------------------------------------------------------------------ oracle of the histories (op 1060)
+HNAME = {0: "CfdpLv", 1: "CfdpTlv", 10: "FileStoreRequestTlv", 11: "FileStoreResponseTlv", 12: "MessageToUserTlv",
+         14: "FaultHandlerOverrideTlv", 15: "FlowLabelTlv", 16: "EntityIdTlv"}
+REFUSED_BY_PYTHON = {P_SETPLEN}          # properties without a setter: AttributeError, nothing changes
+
+
+def _layout_of_view(kind, v):
+    """what pack() must return for an object whose public attributes read as view v: octet list, "refuse" (does not
+    fit the format: ValueError), or None (outside the property's domain: only self-consistency is checked)"""
+    if kind == 0:
+        return [len(v[0])] + v[0] if len(v[0]) <= 255 else "refuse"
+    if kind == 1 or kind in (12, 14, 15, 16):
+        t = v[0][0] if kind == 1 else v[0][-1]
+        if not 0 <= t <= 255:
+            return "refuse"
+        return [t, len(v[1])] + v[1] if len(v[1]) <= 255 else "refuse"
+    action, status = v[0]
+    if action not in ACTIONS:
+        return None
+    two = action in TWO
+    if len(v[1]) > 255 or (two and len(v[2]) > 255) or (kind == 11 and len(v[3]) > 255):
+        return "refuse"
+    if kind == 11 and not (status >= 0 and status in STATUS and status >> 4 == action):
+        return None         # status code of another action: no layout prescribed
+    val = fs_value(action, (status & 15) if kind == 11 else 0, v[1], v[2], v[3] if kind == 11 else None)
+    return tlv_bytes(kind - 10, val) if len(val) <= 255 else "refuse"
+
+
+def _plen_of_view(kind, v):
+    return {0: lambda: v[1][1], 1: lambda: v[2][1], 10: lambda: v[4][1], 11: lambda: v[4][1]}.get(kind, lambda: v[2][0])()
+
+
+def _hist_oracle(a, ires):
+    kind, path = a[0]
+    name = HNAME[kind]
+    ops = a[5:]
+    if ires[0][0] == 1:
+        if ires[0][1] == 99:
+            try:
+                _history(a)
+                why = "not reproducible"
+            except Exception as e:
+                why = str(e)
+            return ("C08/%s.history/caller-object-or-shared-state" % name, why)
+        if ires[0][1] not in (1, 2, 3, 6):
+            return ("C08/%s/undocumented-exception" % name, "construction path %d -> error class %d" % (path, ires[0][1]))
+        return None
+    k = NVIEW[kind]
+    body = ires[1:]
+    if len(body) != k + len(ops) * (k + 1):
+        return ("oracle-crash", "history result has %d lists for %d operations" % (len(body), len(ops)))
+    view = body[:k]
+    last_pack = None          # octets of the preceding successful pack() when nothing was assigned since
+    pos = k
+    for n, op in enumerate(ops):
+        st, nview = body[pos], body[pos + 1:pos + 1 + k]
+        pos += k + 1
+        c = op[0]
+        where = "step %d (%s) of %s" % (n + 1, op[:8], [x[:6] for x in ops])
+        ok = st[0] == 0
+        if c not in APPLIES[kind]:
+            view = nview; continue
+        if not ok and st[1] == 99:
+            return ("C08/%s.history/caller-object-or-shared-state" % name, where)
+        if not ok and nview != view:
+            return ("C08/%s.history/refused-operation-changed-the-object" % name,
+                    "%s raised error class %d but the object reads %s instead of %s" % (where, st[1], nview, view))
+        if c in (P_PACK, P_VALUE, P_GEN):
+            want = _layout_of_view(kind, nview)
+            if not ok:
+                if st[1] not in (1, 2, 3):
+                    return ("C08/%s.pack/undocumented-exception" % name, "%s -> error class %d" % (where, st[1]))
+                if want not in ("refuse", None):
+                    return ("C08/%s.history/pack-raises" % name, "%s raised although the attributes %s fit the format" % (where, nview[:4]))
+            elif c == P_VALUE and kind in (12, 14, 15, 16):
+                if st[1:] != nview[1]:
+                    return ("C08/%s.history/value-differs" % name, "%s: value gives %s, the wrapped TLV holds %s" % (where, st[1:13], nview[1][:12]))
+            elif c != P_GEN:
+                got = st[1:]
+                if want == "refuse":
+                    return ("C08/%s.history/too-long-accepted" % name, "%s returned %d octets for attributes that do not fit" % (where, len(got)))
+                if c == P_PACK:
+                    if len(got) != _plen_of_view(kind, nview):
+                        return ("C08/%s.history/packet_len-differs-from-packed" % name,
+                                "%s: pack() gives %d octets %s, packet_len says %d" % (where, len(got), got[:12], _plen_of_view(kind, nview)))
+                    if want is not None and got != want:
+                        return ("C08/%s.history/pack-is-not-the-layout-of-the-current-attributes" % name,
+                                "%s: pack() gives %s, the attributes %s lay out as %s" % (where, got[:16], [x[:8] for x in nview[:4]], want[:16]))
+                    if last_pack is not None and got != last_pack:
+                        return ("C08/%s.history/pack-not-repeatable" % name, "%s: %s then %s" % (where, last_pack[:12], got[:12]))
+                    last_pack = got
+                elif want is not None and kind >= 10 and got != want[2:]:
+                    return ("C08/%s.history/value-is-not-the-layout-of-the-current-attributes" % name,
+                            "%s: value gives %s, expected %s" % (where, got[:16], want[2:18]))
+        else:
+            last_pack = None
+            if ok and c in REFUSED_BY_PYTHON:
+                return ("C08/%s.history/read-only-property-assigned" % name, where)
+            if ok:      # the assignment must be visible through the attribute it names
+                seen = {P_SETVALUE: lambda: nview[0] == op[1:] if kind == 0 else None,
+                        P_INPLACE: lambda: nview[0] == op[2:] if kind == 0 else None,
+                        P_SETTYPE: lambda: nview[0][0] == op[1] if kind == 1 else None,
+                        P_SETTLV: lambda: (nview[-1] == [1, op[1]] + op[2:]) if kind in (10, 11) else (nview[0][-1] == op[1] and nview[1] == op[2:]),
+                        P_TLVNONE: lambda: nview[-1] == [0],
+                        P_SUBTYPE: lambda: (nview[-1][1] == op[1]) if kind in (10, 11) else nview[0][-1] == op[1],
+                        P_CC: lambda: nview[0][0] == op[1], P_HC: lambda: nview[0][1] == op[1],
+                        P_ACTION: lambda: nview[0][0] == op[1], P_STATUS: lambda: nview[0][1] == op[1],
+                        P_FIRST: lambda: nview[1] == op[1:], P_SECOND: lambda: nview[2] == op[1:],
+                        P_MSG: lambda: nview[3] == op[1:], P_SUBMSG: lambda: nview[3] == op[1:]}[c]()
+                if seen is False:
+                    return ("C08/%s.history/assignment-not-visible" % name, "%s: the object reads %s" % (where, [x[:10] for x in nview]))
+        view = nview
+    # round trip of the final octets (when the history ends with a successful pack of an in-domain object)
+    indom = _layout_of_view(kind, view) not in (None, "refuse") and not (kind == 14 and len(view[1]) < 1)
+    if last_pack is not None and indom and kind >= 10 and last_pack[0] == kind - 10:
+        back = run_impl(impl, UNPACK_OP[kind - 10], [last_pack + [0x01, 0x00]])
+        if back[0] != [0]:
+            return ("C08/%s.history/roundtrip" % name, "unpack(pack()) after %s -> %s" % ([x[:6] for x in ops], back[:2]))
+        if kind in (10, 11):
+            two = view[0][0] in TWO
+            got = [back[1], back[2], back[3] if two else None] + ([back[4]] if kind == 11 else [])
+            want = [[view[0][0]] if kind == 10 else view[0], view[1], view[2] if two else None] + ([view[3]] if kind == 11 else [])
+            if got != want:
+                return ("C08/%s.history/roundtrip" % name, "unpack(pack()) after %s reads %s, the object reads %s" % ([x[:6] for x in ops], got, want))
+        elif back[3 if kind != 14 else 4] != view[1]:
+            return ("C08/%s.history/roundtrip" % name, "unpack(pack()) after %s -> %s" % ([x[:6] for x in ops], back[:5]))
+    if last_pack is not None and indom and kind == 0:
+        back = run_impl(impl, 1001, [last_pack + [0xAA]])
+        if back[0] != [0] or back[1] != view[0]:
+            return ("C08/CfdpLv.history/roundtrip", "unpack(pack()) after %s -> %s" % ([x[:6] for x in ops], back[:3]))
+    return None
+
+
+
 def oracle(case, ires, sres):
     """The statement of C08 evaluated on the implementation's observable behaviour."""
     op, a = case
     err = ires[0][0] == 1
     code = ires[0][1] if err else None
+    if op == 1060:
+        return _hist_oracle(a, ires)
+    if err and code == 99 and (op in (1001, 1004) or op in UNPACK_OP.values()):
+        try:
+            impl(op, a); why = "not reproducible"
+        except Exception as e:
+            why = str(e)
+        return ("C08/%s/input-buffer-aliased-or-type-dependent" % _name(op), why)
     # ---------------- LV
     if op in (1000, 1007):
         v = a[0]
